@@ -25,10 +25,10 @@ import (
 
 	proxyv1alpha1 "github.com/kubewharf/kubegateway/pkg/apis/proxy/v1alpha1"
 	"github.com/kubewharf/kubegateway/pkg/clusters"
+	"github.com/kubewharf/kubegateway/pkg/gateway/controllers"
 	gatewayfilters "github.com/kubewharf/kubegateway/pkg/gateway/endpoints/filters"
 	"github.com/kubewharf/kubegateway/pkg/gateway/endpoints/monitor"
 	gatewayrequest "github.com/kubewharf/kubegateway/pkg/gateway/endpoints/request"
-	"github.com/kubewharf/kubegateway/pkg/gateway/controllers"
 	"github.com/kubewharf/kubegateway/pkg/gateway/proxy/dispatcher"
 )
 
@@ -159,6 +159,8 @@ type reqCtl struct {
 	released       bool
 	finishAsked    bool
 	pickEmitted    bool // the model has been told about the pick
+	storm          bool // fired without waiting, races with the next op; judged, not compared with the model
+	sentAt         time.Time
 }
 
 func (rc *reqCtl) release() {
@@ -191,7 +193,8 @@ func (rc *reqCtl) snapshot() reqCtl {
 	return reqCtl{rid: rc.rid, host: rc.host, hold: rc.hold, watch: rc.watch, startedAt: rc.startedAt, reachedPrepick: rc.reachedPrepick,
 		picked: rc.picked, pickedCtx: rc.pickedCtx, upSeen: rc.upSeen, upIdx: rc.upIdx, upToken: rc.upToken, upDone: rc.upDone, upDoneAt: rc.upDoneAt,
 		status: rc.status, chunks: rc.chunks, lastChunk: rc.lastChunk, completed: rc.completed, completedAt: rc.completedAt, clean: rc.clean,
-		errStr: rc.errStr, body: rc.body, released: rc.released, finishAsked: rc.finishAsked, pickEmitted: rc.pickEmitted}
+		errStr: rc.errStr, body: rc.body, released: rc.released, finishAsked: rc.finishAsked, pickEmitted: rc.pickEmitted,
+		storm: rc.storm, sentAt: rc.sentAt}
 }
 
 // ---------------------------------------------------------------------------------------------------------
@@ -378,8 +381,11 @@ func (w *world) delete(op Op) (requeue bool, err error) {
 	return w.ctrl.VerifC15Sync(obj)
 }
 
-func (w *world) start(op Op) *reqCtl {
-	rc := &reqCtl{rid: op.Rid, host: op.Host, hold: op.Hold, watch: op.Watch, releaseCh: make(chan struct{}), finishCh: make(chan struct{}), startedAt: time.Now()}
+func (w *world) start(op Op) *reqCtl { return w.startAfter(op, 0, false) }
+
+// startAfter: the client sends its request after the given delay (storm requests race with the next op).
+func (w *world) startAfter(op Op, delay time.Duration, storm bool) *reqCtl {
+	rc := &reqCtl{rid: op.Rid, host: op.Host, hold: op.Hold, watch: op.Watch, releaseCh: make(chan struct{}), finishCh: make(chan struct{}), startedAt: time.Now(), storm: storm}
 	if rc.hold == "stream" || rc.hold == "" {
 		rc.hold = "stream"
 		rc.released = true
@@ -388,6 +394,12 @@ func (w *world) start(op Op) *reqCtl {
 	w.reqs[op.Rid] = rc
 	w.mu.Unlock()
 	go func() {
+		if delay > 0 {
+			time.Sleep(delay)
+		}
+		rc.mu.Lock()
+		rc.sentAt = time.Now()
+		rc.mu.Unlock()
 		path := "/api/v1/namespaces/default/pods"
 		if rc.watch {
 			path += "?watch=true"
